@@ -175,10 +175,16 @@ def fan_out(ctx, exe, env, cases, behs, mode, workers, timeout, max_crashes=12):
     groups = collections.defaultdict(list)
     for i, b in enumerate(behs):
         groups[group_key(b)].append(i)
-    bins = [[] for _ in range(workers)]
-    for key in sorted(groups, key=lambda k: (-len(groups[k]), repr(k))):
-        min(bins, key=len).extend(groups[key])
-    outs, crashes, errs, skipped = {}, [], [], [0]
+    # estimated cost of a group: its kernel(s) (forLoop kernels include <occa.hpp>) plus the executions
+    def cost(key):
+        return (6.0 if key and key[0][0] == "loop" else 1.0) + 0.004 * len(groups[key])
+
+    bins, load = [[] for _ in range(workers)], [0.0] * workers
+    for key in sorted(groups, key=lambda k: (-cost(k), repr(k))):
+        w = load.index(min(load))
+        bins[w].extend(groups[key])
+        load[w] += cost(key)
+    outs, crashes, errs, skipped, kernels = {}, [], [], [0], [0]
 
     def work(w):
         try:
@@ -192,6 +198,10 @@ def fan_out(ctx, exe, env, cases, behs, mode, workers, timeout, max_crashes=12):
             e["C23_MODE"] = mode
             o, c, sk = replay_worker(exe, e, tmp, [cases[i] for i in idx], timeout, max_crashes)
             skipped[0] += sk
+            try:
+                kernels[0] += len(os.listdir(os.path.join(e["OCCA_CACHE_DIR"], "cache")))
+            except OSError:
+                pass
             for k, rec in o.items():
                 outs[idx[k]] = rec
             for cr in c:
@@ -208,7 +218,7 @@ def fan_out(ctx, exe, env, cases, behs, mode, workers, timeout, max_crashes=12):
         t.join()
     if errs:
         raise errs[0] if isinstance(errs[0], Broken) else Broken("replayer fan-out failed: %r" % (errs[0],))
-    return outs, crashes, skipped[0]
+    return outs, crashes, skipped[0], kernels[0]
 
 
 # ------------------------------------------------------------------ comparison
@@ -244,7 +254,7 @@ def describe(beh, j):
 def run(ctx):
     thorough = ctx.tier == "thorough"
     ctx.level = "model_checking"
-    workers = int(os.environ.get("C23_WORKERS", "8" if thorough else "4"))
+    workers = int(os.environ.get("C23_WORKERS", "8" if thorough else "6"))
     tlcw = 4
     tlcpar = int(os.environ.get("C23_TLC_PAR", "4"))
 
@@ -274,7 +284,7 @@ def run(ctx):
                     ("pairs_t", "mc/Functional_gen_pairs_t.cfg", None, None), ("helpers", "mc/Functional_gen_helpers.cfg", None, None),
                     ("range_t", "mc/Functional_gen_range_t.cfg", None, None), ("loop_t", "mc/Functional_gen_loop_t.cfg", None, None),
                     ("sim_array", "mc/Functional_sim_array.cfg", 1500, 7), ("sim_range", "mc/Functional_sim_range.cfg", 600, 5),
-                    ("sim_loop", "mc/Functional_sim_loop.cfg", 100, 1)]
+                    ("sim_loop", "mc/Functional_sim_loop.cfg", 40, 1)]
         only = [x for x in os.environ.get("C23_ONLY", "").split(",") if x]
         if only:      # development aid (mutant demonstrations): a subset of the generation configs, no design runs
             gens = [g for g in gens if g[0] in only]
@@ -353,7 +363,7 @@ def run(ctx):
     steps_checked, distinct = 0, set()
     per_action = collections.Counter()
     for mode in only_modes:
-        outs, crashes, skipped = results[mode]
+        outs, crashes, skipped, _ = results[mode]
         for c in crashes:
             if c["crash"].startswith("exit-2"):
                 raise Broken("replayer reported a harness error: %s" % c.get("log", "")[-800:])
@@ -395,6 +405,7 @@ def run(ctx):
         "steps_checked": steps_checked, "steps_per_action": dict(per_action),
         "crashes": sum(len(results[m][1]) for m in only_modes),
         "not_executed_after_repeated_crashes": sum(results[m][2] for m in only_modes),
+        "jit_kernels_compiled": sum(results[m][3] for m in only_modes),
         "evaluations": steps_checked, "distinct_nontrivial": len(distinct),
         "rule": "every behaviour TLC enumerates from FunctionalMachine (object creation x tile settings x calls with catalogue "
                 "lambdas) is executed on a Serial and an OpenMP(3 threads) device; an evaluation is one call whose result is "
